@@ -194,6 +194,8 @@ impl<'a> PrettyPrinter<'a> {
         // Add line or space (if any) to both sides.
         // Only turn space into, not the other way around.
         let has_line_break = self.attr_store.is_multiline(markup.to_untyped());
+        let has_parbreak = (markup.to_untyped().children())
+            .any(|child| child.kind() == SyntaxKind::Parbreak);
         let is_symmetric = repr.start_bound != Boundary::Nil && repr.end_bound != Boundary::Nil;
         let get_delim = |bound: Boundary| {
             if scope == MarkupScope::Document || scope == MarkupScope::Item {
@@ -208,10 +210,14 @@ impl<'a> PrettyPrinter<'a> {
                 Boundary::Nil => self.arena.nil(),
                 Boundary::NilOrBreak => {
                     if scope == MarkupScope::Item
-                        || !is_symmetric && !has_line_break
+                        || !is_symmetric && !has_line_break && !has_parbreak
                         || ctx.break_suppressed
                     {
                         self.arena.nil()
+                    } else if has_line_break || has_parbreak {
+                        // The indentation of a list item decides the nesting of what follows.
+                        // It must not sit on the line of the bracket when the markup spans lines.
+                        self.arena.hardline()
                     } else {
                         self.arena.line_()
                     }
